@@ -14,9 +14,10 @@ pub mod c11;
 pub mod c12;
 pub mod c13;
 pub mod c14;
+pub mod c15;
 pub mod c20;
 
-pub const ALL: &[&str] = &["C01", "C02", "C03", "C05", "C06", "C08", "C09", "C10", "C11", "C12", "C13", "C14", "C20"];
+pub const ALL: &[&str] = &["C01", "C02", "C03", "C05", "C06", "C08", "C09", "C10", "C11", "C12", "C13", "C14", "C15", "C20"];
 
 pub fn run(id: &str, ctx: &RunCtx) -> i32 {
     match id {
@@ -32,6 +33,7 @@ pub fn run(id: &str, ctx: &RunCtx) -> i32 {
         "C12" => c12::run(ctx),
         "C13" => c13::run(ctx),
         "C14" => c14::run(ctx),
+        "C15" => c15::run(ctx),
         "C20" => c20::run(ctx),
         _ => harness_error(&format!("unknown property id {id}")),
     }
@@ -65,6 +67,7 @@ pub fn replay(path: &str) -> i32 {
         "C12" => c12::replay(&v),
         "C13" => c13::replay(&v),
         "C14" => c14::replay(&v),
+        "C15" => c15::replay(&v),
         "C20" => c20::replay(&v),
         _ => harness_error(&format!("no replay for property {prop:?}")),
     }
